@@ -386,7 +386,7 @@ def job_core(job, res):
     peaks = _m['peaks']
 
     def body(ex, pr):
-        for positions, d in (([1, 3, 5], 3), ([0, 2, 3], 2), ([2, 4, 9], 3), ([0, 3, 4, 8], 5), ([1, 2, 3, 4], 2), ([0, 4, 5, 9], 5), ([3, 8], 5), ([0, 1, 2, 10], 2)):
+        for positions, d in (([0, 1, 2], 5), ([0, 2, 3], 6), ([1, 2, 4], 7), ([0, 1, 3, 4], 9), ([1, 3, 5], 3), ([0, 2, 3], 2), ([2, 4, 9], 3), ([0, 3, 4, 8], 5), ([1, 2, 3, 4], 2), ([0, 4, 5, 9], 5), ([3, 8], 5), ([0, 1, 2, 10], 2)):
             n = max(positions) + 2
             x = S.sym_real('x', (n,), 'float64')
             vals = [E.R(v) for v in S.terms(x)]
